@@ -536,3 +536,27 @@ Fixpoint matches (s : sel) (p : path) {struct s} : bool :=
 Definition matches_group (g : list sel) (p : path) : bool := existsb (fun s => matches s p) g.
 
 End Match.
+
+(* ------------------------------------------------------------------ tree invariants (checked on every dumped tree)
+
+   Boolean form of SelSpec.dom_wf (SelProofs.dom_wfb_sound): the root is the
+   document node; an element is named "html" iff its parent is not an element;
+   only elements (and the root) have children; among siblings, once an element
+   has been seen only elements, text and comments follow. *)
+Fixpoint sib_ok (seen_elem : bool) (l : list node) : bool :=
+  match l with
+  | [] => true
+  | c :: r => (if seen_elem then is_elem c || is_text c || is_comment c else true) &&
+              sib_ok (seen_elem || is_elem c) r
+  end.
+Fixpoint wf_node (parent_elem : bool) (n : node) {struct n} : bool :=
+  (if is_elem n then Bool.eqb (str_eqb (data_of n) s_html) (negb parent_elem) else true) &&
+  (match kids_of n with [] => true | _ => is_elem n end) &&
+  sib_ok false (kids_of n) &&
+  (fix all (l : list node) : bool :=
+     match l with [] => true | c :: r => wf_node (is_elem n) c && all r end) (kids_of n).
+Definition dom_wfb (d : node) : bool :=
+  match ntype_of d with
+  | TDocument => sib_ok false (kids_of d) && forallb (wf_node false) (kids_of d)
+  | _ => false
+  end.
